@@ -135,7 +135,7 @@ class StmtMixin(object):
                     return st
                 raise Undecided("attribute store on %s" % obj.kind)
             self.oblige(st, "deref", self.auto_label(node, "deref"),
-                        z3.And(u.is_R(obj.z), u.r(obj.z) > 0),
+                        u.is_R(obj.z),
                         note="receiver of .%s= is an object (not None)" % attr)
             st.assume(u.is_R(obj.z))
             obj = SV(obj.z, "ref", cls=obj.cls, elem=obj.elem)
@@ -523,16 +523,18 @@ class StmtMixin(object):
         seq = self.iterable_to_seq(st, acc, it, node)
         n = self.seq_len(st, seq)
         st.assume(n >= 0)
-        snapshot = self.heap_array(st, "$at")[self.as_ref(seq)]
+        snapshot = self.seq_elems(st, seq)
         self.assumptions_used.add("A-iter")
+        alloc_then = st.alloc
 
         def at(s, k):
-            z = snapshot[k]
+            z = snapshot(k)
             sv = self.typed(z, seq.elem)
             if seq.elem and seq.elem != "any":
                 s.assume(self.type_pred(z, seq.elem))
             if sv.kind in (None, "ref"):
-                s.assume(z3.Implies(u.is_R(z), u.r(z) < s.alloc))
+                # the elements existed when the iteration started
+                s.assume(z3.Implies(u.is_R(z), u.r(z) < alloc_then))
             return sv
         self._last_seq = seq
         return at, n
@@ -557,6 +559,7 @@ class StmtMixin(object):
                 env["_n"] = self.mk_int(n)
                 if seqv is not None:
                     env["_seq"] = seqv
+                env["_at"] = SV(None, "callable", py=("elem_at", elem_at))
             return env
         # 1. invariant holds on entry
         for label, text in invs:
@@ -1038,10 +1041,49 @@ class StmtMixin(object):
         elem = ast.literal_eval(node.args[1]) if len(node.args) > 1 else None
         return st, SV(v.z, "ref", cls="list", elem=elem)
 
+    def spec_has_kind(self, node, st, acc):
+        st, v = self.eval(node.args[0], st, acc)
+        t = ast.literal_eval(node.args[1])
+        return st, self.mk_bool(self.type_pred(self.box(st, v).z, t))
+
+    def spec_as_tuple(self, node, st, acc):
+        st, v = self.eval(node.args[0], st, acc)
+        elem = ast.literal_eval(node.args[1]) if len(node.args) > 1 else None
+        return st, SV(v.z, "ref", cls="tuple", elem=elem)
+
     def spec_as_ref(self, node, st, acc):
         st, v = self.eval(node.args[0], st, acc)
         cname = ast.literal_eval(node.args[1])
         return st, SV(v.z, "ref", cls=cname)
+
+    def spec_int_parses(self, node, st, acc):
+        st, v = self.eval(node.args[0], st, acc)
+        v = self.box(st, v)
+        return st, self.mk_bool(self.u.uf("int_parses", self.u.Val, self.u.Bool)(v.z))
+
+    def spec_int_of(self, node, st, acc):
+        st, v = self.eval(node.args[0], st, acc)
+        v = self.box(st, v)
+        return st, self.mk_int(self.u.uf("int_of", self.u.Val, self.u.Int)(v.z))
+
+    def spec_truthy(self, node, st, acc):
+        st, v = self.eval(node.args[0], st, acc)
+        return st, self.mk_bool(self.truthy(v, st))
+
+    def spec_uf_bool(self, node, st, acc):
+        """uf_bool('name', a, b, ...): the engine's uninterpreted predicate of that name (Val args)."""
+        name = ast.literal_eval(node.args[0])
+        zs = []
+        for a in node.args[1:]:
+            st, v = self.eval(a, st, acc)
+            zs.append(self.box(st, v).z)
+        f = self.u.uf(name, *([self.u.Val] * len(zs) + [self.u.Bool]))
+        return st, self.mk_bool(f(*zs))
+
+    def spec_str_startswith(self, node, st, acc):
+        st, a = self.eval(node.args[0], st, acc)
+        st, b = self.eval(node.args[1], st, acc)
+        return self.str_method(st, acc, a, "startswith", [b], {}, node)
 
     def spec_ite(self, node, st, acc):
         st, c = self.eval(node.args[0], st, acc)
